@@ -593,12 +593,22 @@ impl<'a> Gen<'a> {
                     normalise_gaps(&mut t);
                     let (num, unit) = *self.rng.pick(&[("180", "°C"), ("2", "kg"), ("5", "min"), ("1.5", "l"), ("350", "F"), ("4", "C"), ("20", "cm")]);
                     let neg = unit == "C" && self.rng.coin();
-                    if !matches!(t.last(), Some(Tok::Gap)) {
-                        t.push(Tok::Gap);
-                    }
-                    t.push(Tok::Inline { neg, num: num.to_string(), unit: unit.to_string(), attached: self.rng.chance(1, 3) });
-                    if i + 1 < n {
-                        t.push(Tok::Gap);
+                    let inline = Tok::Inline { neg, num: num.to_string(), unit: unit.to_string(), attached: self.rng.chance(1, 3) };
+                    if items.is_empty() && self.rng.chance(1, 3) {
+                        // the quantity (or its sign) is the very first thing of the step
+                        while matches!(t.first(), Some(Tok::Gap)) {
+                            t.remove(0);
+                        }
+                        t.insert(0, Tok::Gap);
+                        t.insert(0, inline);
+                    } else {
+                        if !matches!(t.last(), Some(Tok::Gap)) {
+                            t.push(Tok::Gap);
+                        }
+                        t.push(inline);
+                        if i + 1 < n {
+                            t.push(Tok::Gap);
+                        }
                     }
                     planted_inline = true;
                 }
